@@ -29,6 +29,10 @@ type Proxy struct {
 	seq   int
 	Paths []string
 	Plan  func(seq int, path string) *Fault
+	// Legacy makes the proxy a publisher of the time before the IPNI path: requests under /ipni/ are answered 404 (and counted
+	// in Probes, not in the request numbering), path-less requests are forwarded to the backend's IPNI path.
+	Legacy bool
+	Probes int
 	// Discovery, when set, is what happens to the libp2p-HTTP discovery requests (/.well-known/libp2p/...) of this sync.
 	Discovery *Fault
 	// OnCancel is called for the "cancel" fault (the harness cancels the caller's context).
@@ -66,7 +70,7 @@ func HTTPAddr(serverURL string) multiaddr.Multiaddr {
 // Reset starts a new request numbering (a new sync).
 func (p *Proxy) Reset() {
 	p.mu.Lock()
-	p.seq, p.Paths = 0, nil
+	p.seq, p.Paths, p.Probes = 0, nil, 0
 	p.mu.Unlock()
 }
 
@@ -106,6 +110,13 @@ func closeQuietly(w http.ResponseWriter) {
 
 func (p *Proxy) handle(w http.ResponseWriter, r *http.Request) {
 	protocol := !strings.Contains(r.URL.Path, ".well-known")
+	if p.Legacy && protocol && strings.HasPrefix(r.URL.Path, "/ipni/") {
+		p.mu.Lock()
+		p.Probes++
+		p.mu.Unlock()
+		http.NotFound(w, r)
+		return
+	}
 	var f *Fault
 	if !protocol {
 		p.mu.Lock()
@@ -152,7 +163,11 @@ func (p *Proxy) handle(w http.ResponseWriter, r *http.Request) {
 		}
 	}
 	// forward
-	req, err := http.NewRequestWithContext(r.Context(), r.Method, p.backend+r.URL.Path, nil)
+	fwd := r.URL.Path
+	if p.Legacy && protocol {
+		fwd = "/ipni/v1/ad" + fwd
+	}
+	req, err := http.NewRequestWithContext(r.Context(), r.Method, p.backend+fwd, nil)
 	if err != nil {
 		http.Error(w, err.Error(), http.StatusBadGateway)
 		return
@@ -227,4 +242,11 @@ func itoa(n int) string {
 		n /= 10
 	}
 	return string(b)
+}
+
+// ProbeCount: requests under the IPNI path a legacy proxy has answered 404 since the last Reset.
+func (p *Proxy) ProbeCount() int {
+	p.mu.Lock()
+	defer p.mu.Unlock()
+	return p.Probes
 }
